@@ -187,7 +187,8 @@ class GlobalContext:
                 if path.find("/") < 0 or idx < 0:
                     raise ImportError("attempted relative import above parent package")
                 ctx_name = ctx_name[0:idx]
-            ctx_name += f".{module_name}"
+            # the name follows the package directory, also when the importing file is not the package's __init__.py
+            ctx_name = f"{path.replace('/', '.')}.{module_name}"
             module_info = [ctx_name, f"{path}/{module_path}.py", path]
             path += f"/{module_path}"
             file_paths.append([ctx_name, f"{path}/__init__.py", path])
